@@ -33,8 +33,10 @@ GETc  == <<"G", "E", "T">>
 POSTc == <<"P", "O", "S", "T">>
 HEADc == <<"H", "E", "A", "D">>
 
-ItemsC == {[kind |-> "policy", ms |-> {GETc}, pc |-> pc] : pc \in PatternsC}
-          \cup {[kind |-> "flow", ms |-> ms, pc |-> pc] : pc \in PatternsC, ms \in {{}, {GETc}, {GETc, POSTc}}}
+\* split = TRUE: the methods are declared by TWO flows on the same URL, one method each
+ItemsC == {[kind |-> "policy", ms |-> {GETc}, pc |-> pc, split |-> FALSE] : pc \in PatternsC}
+          \cup {[kind |-> "flow", ms |-> ms, pc |-> pc, split |-> FALSE] : pc \in PatternsC, ms \in {{}, {GETc}, {GETc, POSTc}}}
+          \cup {[kind |-> "flow", ms |-> {GETc, POSTc}, pc |-> pc, split |-> TRUE] : pc \in PatternsC}
 ItemSeq == SetToSeq(ItemsC)
 NItems  == Len(ItemSeq)
 
@@ -53,10 +55,12 @@ ReqUrls(pc) ==
     IN {[h |-> h, p |-> p] : h \in {pc.h, OtherHost[1]}, p \in paths}
 
 \* OtherHost is a single-label host
-ReqsOf(pc) == {[mc |-> mc, uc |-> [h |-> (IF u.h = OtherHost[1] THEN OtherHost ELSE u.h), p |-> u.p], ts |-> ts] :
-                   mc \in {GETc, POSTc, HEADc}, u \in ReqUrls(pc), ts \in BOOLEAN}
+ReqsOf(pc) == {[mc |-> mc, uc |-> [h |-> (IF u.h = OtherHost[1] THEN OtherHost ELSE u.h), p |-> u.p], var |-> v] :
+                   mc \in {GETc, POSTc, HEADc}, u \in ReqUrls(pc), v \in {"", "ts", "uc"}}
 
 \* the item / request in the vocabulary of ManagedP
-ItemP(it, name) == [name |-> name, kind |-> it.kind, ms |-> {Str(m) : m \in it.ms}, p |-> AsStrings(it.pc)]
-ReqP(r) == [m |-> Str(r.mc), u |-> AsStrings(r.uc), ts |-> r.ts]
+ItemP(it, name, ms) == [name |-> name, kind |-> it.kind, ms |-> {Str(m) : m \in ms}, p |-> AsStrings(it.pc)]
+\* the items the engine loads for it: one, or one per method when split
+ItemsP(it) == IF it.split THEN {ItemP(it, "i1", {GETc}), ItemP(it, "i2", {POSTc})} ELSE {ItemP(it, "i1", it.ms)}
+ReqP(r) == [m |-> Str(r.mc), u |-> AsStrings(r.uc), var |-> r.var]
 ================================================================================
